@@ -27,7 +27,7 @@ ASSUMPTIONS = ['for md.Trajectory data the metric model is mdtraj.rmsd itself on
                'clauses that compare two runs bit for bit (shortcut on/off, prefix runs) are evaluated only on '
                'scenarios the float64 model classifies as tie-free',
                'stopping decisions within 1e-11 relative of the cutoff (4e-6 for float32 data, whose kernel subtracts in float32) are accepted either way']
-REACH_EXPECTED = ['estimator_configured_after_construction', 'rmsd_trajectory_data', 'cutoff_just_below_radius', 'stop_by_count', 'stop_by_cutoff', 'zero_iterations_warm_start', 'triangle_shortcut_compared',
+REACH_EXPECTED = ['serial_mode_inside_world', 'estimator_configured_after_construction', 'rmsd_trajectory_data', 'cutoff_just_below_radius', 'stop_by_count', 'stop_by_cutoff', 'zero_iterations_warm_start', 'triangle_shortcut_compared',
                   'mpi_run', 'two_approx_checked', 'prefix_checked', 'init_centers_run', 'init_centers_as_list']
 
 
@@ -42,7 +42,7 @@ def scenario(ctx):
         mpi = False
     k, cutoff = P.draw_stop(ctx)
     form = 'estimator' if t.flag(1, 4) else 'function'
-    tri = t.flag() and form == 'function'
+    tri = t.flag() and form == 'function' and P.is_metric()
     spelling = t.draw(2)
     init = None
     if not mpi and t.flag(1, 3):
@@ -74,6 +74,22 @@ def scenario(ctx):
             return clrun.run_mpi(ctx, e, P, sp, poison=poison, suffix=suffix)
         return clrun.run_serial(ctx, e, P, sp)
 
+    local_ok = P.metric_name != 'rmsd' or k is None or k < min(len(ix) for ix in P.l2g)      # RMSD: never down to 'every frame is a centre'
+    if mpi and P.N >= 2 and init is None and t.flag(1, 6) and local_ok:
+        # a job of N ranks in which every rank clusters its own shard serially (mpi_mode=False given explicitly)
+        import copy
+        ctx.hit('serial_mode_inside_world')
+        gs = clrun.run_serial_inside_world(ctx, e, P, dict(spec, tri=False), suffix='L')
+        for r, gr in enumerate(gs):
+            Pr = copy.copy(P)
+            Pr.X = P.local(r)
+            Pr.n = len(Pr.X)
+            Pr.lengths, Pr.N = [Pr.n], 1
+            M.check_consistent(Pr.X, P.metric_name, gr.ci, gr.centers, gr.labels, gr.distances,
+                               where='rank %d of %d clustering its own data with mpi_mode=False:' % (r, P.N))
+            check_greedy(ctx, Pr, gr, k, cutoff, None)
+        ctx.nontrivial = True
+        return
     g = run(spec)
     if init_list is not None:
         require(len(init_list) == len(init) and all(M.frame_equal(P.metric_name, clrun.ctr(a_), P.X[i]) for a_, i in zip(init_list, init)), 'input_modified',
@@ -87,7 +103,7 @@ def scenario(ctx):
                 (g.ci, model.centers))
         # shortcut on/off: identical results are demanded when, in addition, no frame is (nearly) equidistant to a
         # new centre and its current one - there rounding may legitimately decide differently in the two variants
-        if form == 'function' and model.assign_margin > P.tie_tol():
+        if form == 'function' and model.assign_margin > P.tie_tol() and P.is_metric():
             g2 = run(dict(spec, tri=not tri), suffix='2')
             require(g2.ci == g.ci and np.array_equal(g2.labels, g.labels) and P.same_dist(g2.distances, g.distances),
                     'triangle_shortcut_differs', lambda: 'with shortcut=%s centres %s, with %s centres %s; labels differ at %s, '
@@ -105,7 +121,7 @@ def scenario(ctx):
     else:
         ctx.count('tied_scenarios')
     # Gonzalez bound on tiny instances (pure post-condition)
-    if P.n <= 9 and init is None:
+    if P.n <= 9 and init is None and P.is_metric():
         opt = M.optimal_radius(P.X, P.model_metric, len(g.ci))
         rad = float(np.max(g.distances))
         require(rad <= 2 * opt * (1 + M.rtol_for(P.dtype) * 8) + 1e-300 + 2 * float(P.noise(opt)), 'not_2_approx',
